@@ -57,7 +57,8 @@ Proof.
     + rewrite alookup_aupd_other in Hcb' by exact Hne. apply H; assumption.
   - intros t0 tk w H. unfold once_finish. destruct (alookup t0 (cbs w)) as [cb0|] eqn:Ecb; [|exact H].
     intros cb Hcb Ho. cbn [cbs set emit] in Hcb. destruct (N.eq_dec t t0) as [->|Hne].
-    + rewrite alookup_aupd_same, Ecb in Hcb. inversion Hcb; subst. cbn in Ho |- *. specialize (H cb0 Ecb Ho). destruct (cb_taken cb0); [exact H|rewrite H; lia].
+    + rewrite alookup_aupd_same, Ecb in Hcb. inversion Hcb; subst. cbn [cb_once cb_taken cb_runno] in Ho |- *. specialize (H cb0 Ecb Ho).
+      destruct (cb_once cb0); [|contradiction]. destruct (cb_taken cb0); [exact H|rewrite H; lia].
     + rewrite alookup_aupd_other in Hcb by exact Hne. apply H; assumption.
   - (* the body: guarded by once_ok_b *)
     intros sd t0 r c w HG H. unfold body_guard in HG. apply andb_true_iff in HG. destruct HG as [_ HG].
@@ -165,8 +166,9 @@ Proof.
   - intros t0 w H. eapply OH_stable; [exact (g_oruns_kview _ _ (kview_despawn _ _))|apply cb_stable_despawn|exact H].
   - intros t0 cb b w H Hcb _. unfold cb_bump. eapply OH_cbs_upd; [exact Hcb|reflexivity|reflexivity|exact H].
   - intros t0 tk w H. unfold once_finish. destruct (alookup t0 (cbs w)) as [cb'|] eqn:Ecb; [|exact H].
-    eapply (OH_stable t (w <| cbs := aupd t0 (mkCb (cb_once cb') (cb_runno cb') (cb_captured cb') true false) (cbs w) |>)); [reflexivity|apply cb_stable_oview; reflexivity|].
-    eapply OH_cbs_upd; [exact Ecb|reflexivity|reflexivity|exact H].
+    match goal with |- context [aupd t0 ?r (cbs w)] =>
+      eapply (OH_stable t (w <| cbs := aupd t0 r (cbs w) |>)); [reflexivity|apply cb_stable_oview; reflexivity|];
+      eapply OH_cbs_upd; [exact Ecb|reflexivity|reflexivity|exact H] end.
   - (* the body *)
     intros sd t0 r c w HG H. unfold body_guard in HG. apply andb_true_iff in HG. destruct HG as [HG Honce]. apply andb_true_iff in HG. destruct HG as [_ Hst].
     unfold state_ok_b in Hst. destruct (alookup t0 (cbs w)) as [cb0|] eqn:Ecb; [|discriminate Hst]. clear Hst.
